@@ -7,6 +7,7 @@ import args_common as A
 
 ID = 'C05'
 HARNESS = A.HARNESS
+INTERNAL_COMPARABLE = False   # behind '##' the harness prints exception class / texts, the driver a note: never equal
 
 RULE = ('a case = ordered list of flag arguments (key specifications from a family with prefix relations, short/long/'
         'both, 0..3 leading dashes, both orders around the comma) + handler flags (abbreviations on/off) + one '
